@@ -1033,8 +1033,10 @@ def m_ord(I, st, info, args, depth):
     op = info["tdef"].split("::")[-1]
     if isinstance(a, Aff) and isinstance(b, Aff):
         return ret(st, I.compare(st, {"le": "Le", "lt": "Lt", "ge": "Ge", "gt": "Gt"}[op], a, b))
-    if isinstance(a, Sym) and isinstance(b, Sym) and a.attrs.get("instant") and b.attrs.get("instant"):
+    shifted = [x for x in (a, b) if isinstance(x, Sym) and abs(x.attrs.get("offset_secs") or 0) > 2]
+    if isinstance(a, Sym) and isinstance(b, Sym) and a.attrs.get("instant") and b.attrs.get("instant") and not shifted:
         # three-way order between two instants; one of them must be `now` for the partition to be meaningful
+        # (an instant moved by more than the 2 s the properties allow for clock granularity is not `now` any more: undecided below)
         if a.attrs.get("now") and not b.attrs.get("now"):
             x, y, flip = b, a, True
         else:
